@@ -35,7 +35,10 @@ impl BlobWriter {
         Ok(())
     }
 
-    pub(crate) fn write_record(&mut self, record: Record) -> AnyResult<()> {
+    pub(crate) fn write_record(&mut self, mut record: Record) -> AnyResult<()> {
+        // The record may land at another position than in the source blob (records skipped during
+        // recovery): its header must address the place where it is actually written
+        record.header = record.header.with_blob_offset(self.written)?;
         bincode::serialize_into(&mut self.file, &record.header).with_context(|| "write header")?;
         let mut written = 0;
         written += bincode::serialized_size(&record.header)?;
